@@ -26,8 +26,29 @@ vfslib.install()
 hc.quiet_logging()
 
 
+def _eff(present, excl, rev):
+    """lists that are fixed in this shard are not symbolic arguments at all (they are passed empty): every symbolic list element
+    costs CrossHair a failed precondition path per value"""
+    return ([True] * NE if FIXP else present, [False] * NE if FIXEXCL else excl, [False] * ND if FIXREV else rev)
+
+
+def _lens_ok(present, excl, rev) -> bool:
+    return len(present) == (0 if FIXP else NE) and len(excl) == (0 if FIXEXCL else NE) and len(rev) == (0 if FIXREV else ND)
+
+
 def _tree(present, excl, rev, excl_root):
+    present, excl, rev = _eff(present, excl, rev)
     dirs, ents, alldirs = vfslib.materialise(SKEL, BASE, present, rev)
+    excluded = {BASE: excl_root}
+    for i in range(NE):
+        excluded[ENTS[i][0]] = excl[i]
+    return dirs, excluded
+
+
+def _tree2(present, excl, rev2, excl_root):
+    """the same tree listed in the order given by rev2 (always symbolic in 'rel' mode)"""
+    present, excl, _ = _eff(present, excl, [])
+    dirs, ents, alldirs = vfslib.materialise(SKEL, BASE, present, rev2)
     excluded = {BASE: excl_root}
     for i in range(NE):
         excluded[ENTS[i][0]] = excl[i]
@@ -37,7 +58,7 @@ def _tree(present, excl, rev, excl_root):
 def _wf(present: List[bool], excl: List[bool], rev: List[bool], excl_root: bool, auto_ex: bool) -> bool:
     """the properties' own quantifier: with auto-exclusion on, the input directory holds a (non-excluded) .cmake file and
     mixed-case extensions sit next to at least one lower-case .cmake file"""
-    if len(present) != NE or len(excl) != NE or len(rev) != ND:
+    if not _lens_ok(present, excl, rev):
         return False
     if not auto_ex:
         return True
@@ -62,7 +83,7 @@ def _fixed(vals) -> bool:
 def _wf_root(present, excl, rev, excl_root, auto_ex) -> bool:
     """closure mode goes beyond the quantifier only in one respect: sub-directories may hold mixed-case *.CMAKE files without a
     lower-case sibling. The input directory itself still holds a non-excluded .cmake file when auto-exclusion is on."""
-    if len(present) != NE or len(excl) != NE or len(rev) != ND:
+    if not _lens_ok(present, excl, rev):
         return False
     if not auto_ex:
         return True
@@ -160,7 +181,6 @@ def check(present: List[bool], excl: List[bool], rev: List[bool], excl_root: boo
           has_prefix: bool, sep2: bool, out_i: int, ext_t: bool, ext_m: bool, which: int, rev2: List[bool], cwd2: bool) -> bool:
     """
     pre: _wf(present, excl, rev, excl_root, auto_ex) or (MODE == "closure" and _wf_root(present, excl, rev, excl_root, auto_ex))
-    pre: (not FIXP or all(present)) and (not FIXREV or not any(rev)) and (not FIXEXCL or not any(excl))
     pre: _fixed(dict(recursive=recursive, auto_ex=auto_ex, has_prefix=has_prefix, sep2=sep2, out_i=out_i, ext_t=ext_t, ext_m=ext_m, excl_root=excl_root))
     pre: 0 <= out_i < len(OUTS) and 0 <= which < max(1, len(FILES))
     pre: (len(rev2) == ND) if MODE == "rel" else (len(rev2) == 0 and (MODE == "hist" or not cwd2))
@@ -180,7 +200,7 @@ def check(present: List[bool], excl: List[bool], rev: List[bool], excl_root: boo
         # C17.a: same contents, other listing order / other working directory / relative input path => same files
         _run(BASE, settings)
         w1 = sorted(VFS.writes)
-        dirs2, _ = _tree(present, excl, rev2, excl_root)
+        dirs2, _ = _tree2(present, excl, rev2, excl_root)
         VFS.reset(dirs2, excluded, cwd="/w/in" if cwd2 else "/w/cwd")
         s2 = _settings(out, recursive, auto_ex, has_prefix, sep2, ext_t, ext_m)
         if cwd2:
